@@ -13,7 +13,7 @@ import (
 //   0 Mask str mask start end   1 Sub s start length   2 SubByDisplay s limit   3 Rev s   4 Len s
 //   5 RemoveRunes s kind a      6 SnakeToCamelCase s up   7 CamelCaseToSnake s   8 UcFirst s   9 LcFirst s
 //  10 CamelCaseToSnake(SnakeToCamelCase(s, up))
-var c17Names = []string{"Mask", "Sub", "SubByDisplay", "Rev", "Len", "RemoveRunes", "SnakeToCamelCase", "CamelCaseToSnake", "UcFirst", "LcFirst", "CamelToSnake.SnakeToCamel"}
+var c17Names = []string{"Mask", "Sub", "SubByDisplay", "Rev", "Len", "RemoveRunes", "SnakeToCamelCase", "CamelCaseToSnake", "UcFirst", "LcFirst", "CamelToSnake.SnakeToCamel", "RemoveRunes+calls"}
 
 func c17PutInt(v int64) []int64 {
 	lo := v & 0xffffffff
@@ -71,6 +71,12 @@ func c17Impl(in []int64) []int64 {
 		return []int64{int64(strz.Len(s))}
 	case 5:
 		return Bytes([]byte(strz.RemoveRunes(s, c17Pred(r[0], r[1]))))
+	case 11: // op 5 through a recording predicate: result, CALLS, put_list(the runes the predicate was asked about, in order)
+		p := c17Pred(r[0], r[1])
+		var asked []int64
+		out := Bytes([]byte(strz.RemoveRunes(s, func(x rune) bool { asked = append(asked, int64(x)); return p(x) })))
+		out = append(out, -1000030)
+		return append(out, PutList(asked)...)
 	case 6:
 		return Bytes([]byte(strz.SnakeToCamelCase(s, r[0] != 0)))
 	case 7:
@@ -213,6 +219,7 @@ func c17Gen(c *Ctx) {
 		t.Try("small/SnakeToCamelCase", c17Case(6, s, 1), nt)
 		for _, pk := range [][2]int64{{1, 0}, {2, 0xFFFD}, {3, 128}, {4, 1}, {6, 0x800}, {2, 97}} {
 			t.Try("small/RemoveRunes", c17Case(5, s, pk[0], pk[1]), nt)
+			t.Try("small/RemoveRunes-calls", c17Case(11, s, pk[0], pk[1]), nt)
 		}
 	})
 	c.SetExhaustive()
@@ -285,6 +292,7 @@ func c17Gen(c *Ctx) {
 				}
 			}
 			t.Try("random/RemoveRunes", c17Case(5, s, kind, a), nt)
+			t.Try("random/RemoveRunes-calls", c17Case(11, s, kind, a), nt)
 		case 9:
 			t.Try("random/SnakeToCamelCase", c17Case(6, s, int64(r.Intn(2))), nt)
 			t.Try("random/CamelCaseToSnake", c17Case(7, s), nt)
